@@ -9,6 +9,7 @@ else
   shift
 fi
 shift   # the --
+export VERIF_EVIDENCE_DIR=/verif/work/evidence_patched
 "$@"
 rc=$?
 git -C /repo checkout -- .
